@@ -25,8 +25,9 @@ RULE = ('part A: every string up to length L over the 12-symbol alphabet (L=4 qu
         'custom contexts). Non-trivial = a raised parse error or an injected fault; distinct = distinct input string.')
 EXHAUSTIVE = {'quick': False, 'thorough': False}
 ASSUMPTIONS = ["reference line/column: lines split at '\\n', first line numbered 1, column = offset in line",
-               'fault boundaries come from the generator (outside \\verb, verbatim environments, verbatim arguments '
-               'and comments)']
+               'fault boundaries come from the generator (outside \\verb, verbatim environments, calls with verbatim '
+               'arguments, and comments); verbatim text of documents used for injection is drawn from inert '
+               'characters so that a fault cannot be hidden by former verbatim text re-read as a comment or brace']
 FAULTS = ['{', '}', '$', '\\(', '\\)', '\\[', '\\]', '\\begin{%s}', '\\end{%s}']
 
 
@@ -144,8 +145,22 @@ def run_shard(desc, rec):
             if i % 500 == 0:
                 rec.sample(s)
             check_case({'s': s}, rec)
+        # soups over the names of generated custom contexts (every standard argument type)
+        for j in range(max(1, desc['count'] // 400)):
+            vseed = [rng.randrange(1 << 30), j]
+            vocab, db = work.vocab_from_seed(vseed)
+            if not vocab.unknown_ok:
+                continue    # without fallback specs an unknown name is outside every property
+            for s in work.custom_soups(rng, vocab, 100):
+                rec.case()
+                rec.monitor('custom_context_soups')
+                check_case({'s': s, 'ctx': {'vocab': 'custom', 'vseed': vseed}}, rec)
     else:
-        src = work.DocSource(rng, desc['vocab'], depth=desc['depth'], cover_base=desc.get('cb', 0))
+        # verbatim text is restricted to characters that stay inert if a fault makes the parser
+        # re-read it as markup (a '%' or brace inside former verbatim text could hide or re-balance
+        # the fault, which the property does not exclude: it speaks of the document as written)
+        src = work.DocSource(rng, desc['vocab'], depth=desc['depth'], cover_base=desc.get('cb', 0),
+                             profile={'verb_chars': 'ab _&#~^'})
         for i in range(desc['count']):
             s, ast, bounds, vocab, db, cdesc = src.next()
             rec.case()
